@@ -4,8 +4,22 @@
    can change; it is dead (NSa) when some locked mutation can never be locked. *)
 From Verif Require Export Percolator.OnePC3.
 
+(* no prewrite request of T was applied as a one-phase commit *)
+Definition no1pc (s : sys) (T : N) : Prop := forall r ks m o, In (EPwReply r T ks (PwOk m o)) (s_dlv s) -> o = 0.
+(* async commit in force: tried, never given up by the owner (FFb), never declined by the store (FStFb);
+   1PC may have been requested as well and abandoned (re-split), as long as it never took effect *)
 Definition asyncm (s : sys) (T : N) : Prop :=
-  hasm s T /\ F s T FTriedA <> 0 /\ F s T FTried1 = 0 /\ F s T FFb = 0 /\ F s T FStFb = 0.
+  hasm s T /\ F s T FTriedA <> 0 /\ no1pc s T /\ F s T FFb = 0 /\ F s T FStFb = 0.
+
+Lemma no1pc_incl : forall s s' T, incl (s_dlv s) (s_dlv s') -> no1pc s' T -> no1pc s T.
+Proof. intros s s' T I N r ks m o H. apply (N r ks m o). apply I. auto. Qed.
+Lemma stepr_dlv_incl : forall s e s', stepr s e = Ok s' -> incl (s_dlv s) (s_dlv s').
+Proof.
+  intros s e s' H. pose proof (stepr_lists _ _ _ H) as [_ [Ld _]].
+  destruct Ld as [Ld | [e' [_ Ld]]]; rewrite Ld; [apply incl_refl | apply incl_tl, incl_refl].
+Qed.
+Lemma no1pc_back : forall s e s' T, stepr s e = Ok s' -> no1pc s' T -> no1pc s T.
+Proof. intros s e s' T H. apply no1pc_incl. eapply stepr_dlv_incl; eauto. Qed.
 
 Definition lam0 (s : sys) (T k : N) : N := match lamk s T k with Some m => m | None => 0 end.
 Definition cstar (s : sys) (T : N) : N := fold_right (fun k acc => N.max (lam0 s T k) acc) 0 (lm s T).
@@ -32,10 +46,10 @@ Lemma Sealed_NSa : forall s T, Sealed s T -> NSa s T -> False.
 Proof. intros s T S [k0 [K1 [K2 _]]]. apply (S k0 K1). auto. Qed.
 
 Record ainv (s : sys) (T : N) : Prop := {
-  a_send : forall r p ks a o m f secs, In (EPwSend r T p ks a o m f secs) (s_sent s) -> a = true /\ o = false;
+  a_send : forall r p ks a o m f secs, In (EPwSend r T p ks a o m f secs) (s_sent s) -> a = true;
   a_entry : forall r ks m o, In (EPwReply r T ks (PwOk m o)) (s_dlv s) ->
-            o = 0 /\ m <> 0 /\ (exists k, In k ks /\ In k (lm s T)) /\
-            forall k, In k ks -> lamk s T k = Some m \/ kget s T k = Committed m;
+            o = 0 /\ m <> 0 /\ forall k, In k ks -> lamk s T k = Some m \/ kget s T k = Committed m;
+  a_1pcts : F s T F1pcTs = 0;
   a_lam : forall k m, lamk s T k = Some m -> m <> 0;
   a_cnt : forall k, kc s T KDlv k <= kc s T KSent k /\ kc s T KNeg k <= kc s T KNegD k;
   a_commit : forall k c, kget s T k = Committed c -> Sealed s T /\ c = cstar s T;
